@@ -134,7 +134,9 @@ package key_certificate
 //@   ensures @C01 @C03 (err == nil) == (len(bytes) >= 3 && u16(bytes[1:3]) <= len(bytes)-3 && bytes[0] == 5 && u16(bytes[1:3]) >= 4)
 //@   ensures @C03 err == nil ==> suffix(remainder, bytes, 3+u16(bytes[1:3]))
 //@   ensures @C01 err == nil ==> KeyCertInv(key_certificate) && seqeq(certificate.CertWire(&key_certificate.Certificate), bytes[:3+u16(bytes[1:3])])
-//@   ensures @C01 @C10 err == nil ==> certificate.CertType(&key_certificate.Certificate) == 5 && SigType(key_certificate) == u16(bytes[3:5]) && CryptoType(key_certificate) == u16(bytes[5:7])
+//@   ensures @C01 @C10 err == nil ==> certificate.CertType(&key_certificate.Certificate) == 5
+//@   ensures @C01 @C10 err == nil ==> SigType(key_certificate) == u16(bytes[3:5])
+//@   ensures @C01 @C10 err == nil ==> CryptoType(key_certificate) == u16(bytes[5:7])
 //@   ensures err != nil ==> key_certificate == nil
 //@   modifies nothing
 
